@@ -185,7 +185,8 @@ def check_case(ctx, case):
             ctx.count("paths_image_identical")
         else:
             p0, p1 = c0["path"][-1][1], c1["path"][-1][1]
-            if abs(p0 - p1) <= (1e-7 if t == "translate" else 1e-12) * max(1.0, abs(p0)):
+            img = list(zip(image(c0["path"], ren), [lp for _, lp in c0["path"]]))
+            if oracles.tie_induced(img, c1["path"], tol=(1e-7 if t == "translate" else 1e-12)):
                 ctx.count("paths_differ_exact_tie")
             else:
                 ctx.violation(f"C16:{tt}:path-differs-without-tie:{fam}:{mode}", wit, f"{t}: base path total {p0!r}, transformed {p1!r}")
